@@ -191,7 +191,8 @@ pub fn serialize_to_writer<W: Write + Seek>(adt: &BuiltAdt, writer: &mut W) -> R
                 let mcnk_start = writer.stream_position()?;
                 write_minimal_mcnk_chunk(writer, x, y, adt.version())?;
                 let mcnk_end = writer.stream_position()?;
-                let mcnk_size = (mcnk_end - mcnk_start - 8) as u32;
+                // MCIN records the size of the whole MCNK chunk, 8-byte header included
+                let mcnk_size = (mcnk_end - mcnk_start) as u32;
                 chunk_positions.mcnk_entries.push((mcnk_start, mcnk_size));
             }
         }
@@ -201,7 +202,8 @@ pub fn serialize_to_writer<W: Write + Seek>(adt: &BuiltAdt, writer: &mut W) -> R
             let mcnk_start = writer.stream_position()?;
             write_mcnk_chunk(writer, mcnk)?;
             let mcnk_end = writer.stream_position()?;
-            let mcnk_size = (mcnk_end - mcnk_start - 8) as u32;
+            // MCIN records the size of the whole MCNK chunk, 8-byte header included
+            let mcnk_size = (mcnk_end - mcnk_start) as u32;
             chunk_positions.mcnk_entries.push((mcnk_start, mcnk_size));
         }
 
@@ -617,7 +619,7 @@ struct ChunkPositions {
     mbmi: Option<u64>,
     /// Position of first MCNK chunk
     mcnk_start: u64,
-    /// MCNK entries: (absolute offset, size)
+    /// MCNK entries: (absolute offset, chunk size including the 8-byte header)
     mcnk_entries: Vec<(u64, u32)>,
 }
 
